@@ -100,7 +100,8 @@ fn main() {
     match args.first().map(String::as_str) {
         Some("fine") => fine(&args[1..]),
         Some("coarse") => coarse(&args[1..]),
-        _ => fail("usage: shutdown_child fine|coarse ...".into()),
+        Some("late") => late(&args[1..]),
+        _ => fail("usage: shutdown_child fine|coarse|late ...".into()),
     }
 }
 
@@ -408,5 +409,101 @@ fn coarse(args: &[String]) {
     }
     println!("{}", serde_json::json!({"mode": "coarse", "mix": mix.iter().collect::<String>(), "events": events, "log": log, "violation": violation,
         "returned": returned.load(Ordering::SeqCst), "sig": sig, "done": done}));
+    std::process::exit(0);
+}
+
+
+/* =============================== a session accepted by the very poll that sees the interrupt =============================== */
+
+/// One fixed schedule of the controlled actors (P = the poll of `howl`, here driven by this thread; H = the signal handler):
+///   P polls once (Pending, listener up) - a client connects and sends a request to a gated handler (not polled: the connection
+///   waits in the accept queue) - SIGINT, H runs to its end - P is polled: this one poll accepts the connection, spawns its
+///   session, and sees the flag.  From then on `howl` must not return before the gate is opened and the session has delivered
+///   its response; afterwards it must return.  `kind`: "g" the gated request, "i" a request that is answered at once on a
+///   connection the client then keeps open (an idle keep-alive session is in flight too).
+/// What is not controlled: the tokio worker that first polls the spawned session task.  A `howl` that counts a session only
+/// from inside its task is caught when P's straight-line code (a few hundred ns from spawn to the wait-group's first load)
+/// wins against the worker's wake-up, which is the overwhelmingly common order; losing the race can hide that defect, it cannot
+/// raise an alarm (a correct `howl` has counted the session before spawning it).
+fn poll_gen<F: Future>(fut: &mut std::pin::Pin<Box<F>>, gen: &mut u64, current: &Arc<AtomicU64>, wakes: &Arc<CountingWaker>, stale: &Arc<AtomicU64>) -> bool {
+    *gen += 1; current.store(*gen, Ordering::SeqCst);
+    let waker = Waker::from(Arc::new(GenWaker { gen: *gen, current: current.clone(), count: wakes.clone(), stale: stale.clone() }));
+    let mut cx = Context::from_waker(&waker);
+    fut.as_mut().poll(&mut cx).is_ready()
+}
+
+fn late(args: &[String]) {
+    use std::io::{Read, Write};
+    let kind = args.first().map(String::as_str).unwrap_or("g").to_string();
+    let h_done = Arc::new(AtomicBool::new(false));
+    { let h_done = h_done.clone(); ohkami::__verif__::set_point_callback(Box::new(move |id: &'static str| { if id == "H3" { h_done.store(true, Ordering::SeqCst) } })); }
+    let port = free_port();
+    let rt = tokio::runtime::Builder::new_multi_thread().worker_threads(2).enable_all().build().expect("runtime");
+    let _guard = rt.enter();
+    let wakes = Arc::new(CountingWaker(AtomicU64::new(0)));
+    let stale = Arc::new(AtomicU64::new(0));
+    let current = Arc::new(AtomicU64::new(0));
+    let addr: std::net::SocketAddr = ([127, 0, 0, 1], port).into();
+    let mut fut = Box::pin(app().howl(addr));
+    let mut gen = 0u64;
+    let mut log: Vec<String> = vec![];
+    let mut poll_once = |fut: &mut std::pin::Pin<Box<_>>| -> bool { poll_gen(fut, &mut gen, &current, &wakes, &stale) };
+    let mut violation: Option<String> = None;
+    // 1. first polls: until the listener is up (bind may need a turn)
+    let mut returned = false;
+    let t = Instant::now();
+    let mut up = false;
+    while t.elapsed() < Duration::from_secs(10) && !returned {
+        returned = poll_once(&mut fut);
+        if let Ok(c) = std::net::TcpStream::connect(("127.0.0.1", port)) { drop(c); up = true; break }
+        std::thread::sleep(Duration::from_millis(2));
+    }
+    if !up || returned { fail("late: listener did not come up".into()) }
+    // drain the probe connection: poll until no wake is pending
+    for _ in 0..50 { let w = wakes.0.load(Ordering::SeqCst); std::thread::sleep(Duration::from_millis(5)); returned = poll_once(&mut fut); if returned { fail("late: howl returned before any interrupt".into()) } if wakes.0.load(Ordering::SeqCst) == w { break } }
+    // 2. the client arrives; howl is NOT polled
+    let mut c = std::net::TcpStream::connect(("127.0.0.1", port)).unwrap_or_else(|e| fail(format!("late: connect: {e}")));
+    c.set_nodelay(true).ok();
+    if kind == "g" { c.write_all(b"GET /slow/0 HTTP/1.1\r\nHost: h\r\nConnection: close\r\n\r\n").unwrap(); } else { c.write_all(b"GET / HTTP/1.1\r\nHost: h\r\n\r\n").unwrap(); }
+    std::thread::sleep(Duration::from_millis(30));
+    // 3. the interrupt, handled completely
+    unsafe { libc::kill(libc::getpid(), libc::SIGINT); }
+    let t = Instant::now();
+    while !h_done.load(Ordering::SeqCst) { if t.elapsed() > Duration::from_secs(10) { fail("late: the signal handler did not finish".into()) } std::thread::sleep(Duration::from_millis(1)); }
+    // 4. the poll that accepts the connection and sees the flag; then wake-driven polls for a while
+    // (a wake counts when it arrives after the poll *began*: the wait-group wakes itself during its poll)
+    let mut polled_at = wakes.0.load(Ordering::SeqCst);
+    returned = poll_once(&mut fut);
+    log.push(format!("poll after CONN+SIG: returned={returned}"));
+    let t = Instant::now();
+    while !returned && t.elapsed() < Duration::from_millis(300) {
+        if wakes.0.load(Ordering::SeqCst) > polled_at { polled_at = wakes.0.load(Ordering::SeqCst); returned = poll_once(&mut fut); }
+        std::thread::sleep(Duration::from_millis(1));
+    }
+    let session_over = if kind == "g" { HANDLER_FINISHED[0].load(Ordering::SeqCst) } else { false };
+    if returned && !session_over {
+        violation = Some(format!("returned-early: howl returned while the session it had accepted in its last poll was still in flight (kind {kind}, handler started: {})", HANDLER_STARTED[0].load(Ordering::SeqCst)));
+    }
+    // 5. the session finishes; howl must return
+    if violation.is_none() {
+        if kind == "g" {
+            GATES_OPEN[0].store(true, Ordering::SeqCst);
+            let mut sink = Vec::new(); c.set_read_timeout(Some(Duration::from_secs(10))).ok(); let _ = c.read_to_end(&mut sink);
+            if !sink.starts_with(b"HTTP/1.1 200") { violation = Some(format!("session did not get its response: {}", String::from_utf8_lossy(&sink[..sink.len().min(60)]))) }
+        } else {
+            let mut buf = [0u8; 512]; c.set_read_timeout(Some(Duration::from_secs(10))).ok();
+            let n = c.read(&mut buf).unwrap_or(0);
+            if n == 0 || !buf.starts_with(b"HTTP/1.1 200") { violation = Some("idle session did not get its response".into()) }
+        }
+        drop(c);
+        let t = Instant::now();
+        while !returned && t.elapsed() < Duration::from_secs(20) {
+            if wakes.0.load(Ordering::SeqCst) > polled_at { polled_at = wakes.0.load(Ordering::SeqCst); returned = poll_once(&mut fut); }
+            std::thread::sleep(Duration::from_millis(1));
+        }
+        if !returned && violation.is_none() { violation = Some("never-returns: the session has finished, howl has not returned within 20 s".into()) }
+    }
+    log.push(format!("end: returned={returned}"));
+    println!("{}", serde_json::json!({"mode": "late", "kind": kind, "log": log, "violation": violation, "returned": returned, "stale_wakes": stale.load(Ordering::SeqCst)}));
     std::process::exit(0);
 }
